@@ -114,6 +114,13 @@ def extract(repo=None, config='default', debug_assertions=True):
                 os.remove(os.path.join(CACHE, f))
             except OSError:
                 pass
+        keep = {f[len('facts-'):-len('.json')] for f in fs[-12:]} | {key}
+        for f in os.listdir(CACHE):
+            if f.startswith('lock-') and f[len('lock-'):] not in keep:
+                try:
+                    os.remove(os.path.join(CACHE, f))
+                except OSError:
+                    pass
         return out
     finally:
         fcntl.flock(lock, fcntl.LOCK_UN)
